@@ -108,9 +108,8 @@ PROPS = {
         trusted=[JSON_CODEC, "FBContext.SendMessage replaced by a recording context"],
         assumptions=["ranges well-formed (from <= to) and message keys parsable, as every caller in firebolt produces them; "
                      "ill-formed ranges and unparsable keys are compared model-vs-code only",
-                     "theorems sender_is_last / snapshot_replication are stated for histories of local operations "
-                     "(add/update/complete/cancel/get); histories that interleave received snapshots are covered by the "
-                     "correspondence check and the Spec oracle only"],
+                     "replication is claimed for the partitions whose last write was a broadcast of the sender (a partition last written by a "
+                     "received snapshot holds that snapshot, not the sender's)"],
     ),
     "C01": dict(
         components=[("flow-C01", 250, 6000)],
